@@ -95,6 +95,9 @@ EXPLANATION = (
     "enables of the control table are set for every instruction whose ISA semantics read that register; (b) every enable with an "
     "architecturally visible side effect (discovered from the port wiring) carries its stage's valid bit and the ~stall / ~squash "
     "terms that the stage's advance / commit condition and sibling enables carry (three frozen, reasoned exceptions). "
+    "R-C20-stage-regs, a third necessary condition of the same kind: every datapath pipeline register is a RegEn/RegEnRst whose en is "
+    "driven by the control unit's enable of its own stage (stage enables discovered from the valid-bit registers), and every pipeline "
+    "field of the control unit is latched only under that enable. "
     "R-C20-cksum: ChecksumFL.checksum, ChecksumCL (unpack + same function) and ChecksumRTL (8 chained step units + combine) "
     "denote the same function of the 8 words in a modular-arithmetic normal form (word order, widths, modulus 2^16, sum2:sum1); "
     "this clause is complete for the checksum part of the property up to the trusted Bits arithmetic, queueing/timing excluded.")
@@ -2162,8 +2165,16 @@ def rule_stage_regs(repo):
             if len(gs) != 1 or None in gs:
                 raise AnalysisError(f"cannot identify the stage enable guarding {name}")
             enable[name[4:]] = gs.pop()
-    if len(enable) < 5 or len(set(enable.values())) != len(enable):
-        raise AnalysisError(f"stage enables of ProcCtrl are not one per stage: {enable}")
+    if len(enable) < 5:
+        raise AnalysisError(f"fewer than five pipeline stages found in ProcCtrl: {enable}")
+    for S, e in sorted(enable.items()):
+        same = sorted(T_ for T_, e2 in enable.items() if e2 == e and T_ != S)
+        if same:
+            r.bad(info.mod, 'ProcCtrl.construct', f"stage {S} has its own enable",
+                  f"the valid bit of stage {S} is latched under {e}, which is also the enable of stage {same[0]}: stage {S} is not held "
+                  f"when it stalls (its own enable is ignored) and the instruction in it is lost or duplicated")
+        else:
+            r.ok(info.mod, 'ProcCtrl.construct', f"stage {S} has its own enable ({e})")
     # control unit: every pipeline field of stage S is written only under the enable of S
     for name, entries in sorted(ff.items()):
         S = stage_of(name)
@@ -2319,6 +2330,14 @@ MUTANTS = [
     _m('gate-proc2mngr-ignores-stall', CTRL, "s.proc2mngr_en @= s.val_W & ~s.stall_W & s.proc2mngr_en_W", "s.proc2mngr_en @= s.val_W & s.proc2mngr_en_W", 'R-C20-gating'),
     _m('gate-xcelresp-ignores-stall', CTRL, "s.xcelresp_en @= s.val_M & ~s.stall_M & s.xcelreq_M", "s.xcelresp_en @= s.val_M & s.xcelreq_M", 'R-C20-gating'),
     _m('gate-rf-wen-ignores-valid', CTRL, "s.rf_wen_W @= s.val_W & s.rf_wen_pending_W", "s.rf_wen_W @= s.rf_wen_pending_W", 'R-C20-gating'),
+    _m2('stage-branch-target-reg-without-enable', [
+        (DPATH, "import Adder, Incrementer, Mux, RegEn, RegEnRst, RegisterFile", "import Adder, Incrementer, Mux, RegEn, RegEnRst, RegRst, RegisterFile"),
+        (DPATH, "s.br_target_reg_X = m = RegEnRst( Bits32, reset_value=0 )\n    m.en  //= s.reg_en_X", "s.br_target_reg_X = m = RegRst( Bits32, reset_value=0 )")], 'R-C20-stage-regs'),
+    _m('stage-branch-target-reg-enabled-by-D', DPATH, "m.en  //= s.reg_en_X\n    m.in_ //= s.pc_plus_imm_D.out", "m.en  //= s.reg_en_D\n    m.in_ //= s.pc_plus_imm_D.out", 'R-C20-stage-regs'),
+    _m('stage-store-reg-enabled-by-M', DPATH, "m.en  //= s.reg_en_X\n    m.in_ //= s.op2_byp_mux_D.out # R[rs2]", "m.en  //= s.reg_en_M\n    m.in_ //= s.op2_byp_mux_D.out # R[rs2]", 'R-C20-stage-regs'),
+    _m('stage-enable-wiring-crossed', RTL, "s.ctrl.reg_en_M        //= s.dpath.reg_en_M", "s.ctrl.reg_en_X        //= s.dpath.reg_en_M", 'R-C20-stage-regs'),
+    _m('stage-ctrl-M-fields-latched-under-X', CTRL, "      elif s.reg_en_M:\n        s.val_M            <<= s.next_val_X", "      elif s.reg_en_X:\n        s.val_M            <<= s.next_val_X", 'R-C20-stage-regs'),
+    _m('stage-ctrl-field-latched-unconditionally', CTRL, "        s.proc2mngr_en_W   <<= s.proc2mngr_en_M\n", "      s.proc2mngr_en_W   <<= s.proc2mngr_en_M\n", 'R-C20-stage-regs'),
     # --- TinyRV0InstRTL -------------------------------------------------------------------------------------------
     _m('dec-add-funct3', INSTRTL, "if   s.in_[FUNCT3] == 0b000:     s.out @= ADD", "if   s.in_[FUNCT3] == 0b100:     s.out @= ADD", 'R-C20'),
     _m('dec-sll-srl-swapped', INSTRTL, "elif s.in_[FUNCT3] == 0b001:     s.out @= SLL", "elif s.in_[FUNCT3] == 0b001:     s.out @= SRL", 'R-C20'),
@@ -2392,6 +2411,9 @@ EQUIV = [
     _m('ctrl-enable-via-advance-wire', CTRL, "s.mngr2proc_en @= s.val_D & ~s.stall_D & ~s.squash_D & s.mngr2proc_D", "s.mngr2proc_en @= s.next_val_D & s.mngr2proc_D"),
     _m('ctrl-hazard-conjuncts-reordered', CTRL, "s.ostall_ld_X_rs1_D @= s.rs1_en_D & s.val_X & s.rf_wen_pending_X", "s.ostall_ld_X_rs1_D @= s.val_X & s.rf_wen_pending_X & s.rs1_en_D"),
     _m('ctrl-bypass-compare-sides-swapped', CTRL, "if   s.val_X & ( s.inst_D[ RS2 ] == s.rf_waddr_X )", "if   ( s.rf_waddr_X == s.inst_D[ RS2 ] ) & s.val_X"),
+    _m2('dp-stage-registers-reordered', [(DPATH, "    s.op1_reg_X = m = RegEnRst( Bits32, reset_value=0 )\n    m.en  //= s.reg_en_X\n    m.in_ //= s.op1_byp_mux_D.out\n\n    # op2 reg\n\n    s.op2_reg_X = m = RegEnRst( Bits32, reset_value=0 )\n    m.en  //= s.reg_en_X\n    m.in_ //= s.op2_sel_mux_D.out",
+                                          "    s.op2_reg_X = m = RegEnRst( Bits32, reset_value=0 )\n    m.in_ //= s.op2_sel_mux_D.out\n    m.en  //= s.reg_en_X\n\n    # op1 reg\n\n    s.op1_reg_X = m = RegEnRst( Bits32, reset_value=0 )\n    m.en  //= s.reg_en_X\n    m.in_ //= s.op1_byp_mux_D.out")]),
+    _m('ctrl-reg-X-assignments-reordered', CTRL, "        s.alu_fn_X         <<= s.alu_fn_D\n        s.rf_waddr_X       <<= s.rf_waddr_D", "        s.rf_waddr_X       <<= s.rf_waddr_D\n        s.alu_fn_X         <<= s.alu_fn_D"),
     _m('ctrl-dont-care-renamed', CTRL, "if   inst == NOP  : s.cs @= concat( y, br_na,  n, imm_x, bm_x,   n, alu_x,   nr, wm_a, n,  n, n )",
        "if   inst == NOP  : s.cs @= concat( y, br_x,   n, imm_i, bm_rf,  n, alu_cp0, nr, wm_x, n,  n, n )"),
     _m2('alu-code-renumbered-consistently', [(CTRL, "alu_and = b4( 5 )", "alu_and = b4( 9 )"), (MISC, "elif s.fn == 5: s.out @= s.in0 & s.in1", "elif s.fn == 9: s.out @= s.in1 & s.in0")]),
@@ -2418,7 +2440,8 @@ LEVEL_TEXT = ("Clauses only. Static single-instruction agreement of the three Ti
               "delays) is NOT decided.")
 LEVEL_NOTE = ("Not decided: pipeline control of ProcRTL/ProcCL (stalls, bypass selection, squashes, back-pressure, response ordering) -- "
               "R-C20-hazard-symmetry (rs1/rs2 sibling agreement of hazard and bypass logic, operand enables vs ISA register reads) and "
-              "R-C20-gating (side-effect enables gated like their stage's advance condition) are necessary code-shape conditions only, "
+              "R-C20-gating (side-effect enables gated like their stage's advance condition) and R-C20-stage-regs (all registers of a "
+              "stage held by that stage's enable) are necessary code-shape conditions only, "
               "they do not establish pipeline correctness; also not decided: "
               "instruction adjacency, timing, termination, adapters, the generic assembler driver. Decided: decode uniqueness and "
               "decoder/table agreement on all legal words, instruction-set agreement, per-instruction datapath semantics of FL, CL and "
